@@ -10,6 +10,10 @@ package api
 // crypto/hmac: the wire protocol, not the repository's helpers) for the symbolic classes of
 // spec/AuthJwt.tla and spec/AuthSig.tla.  Verdicts: whether the handler ran, the status, and
 // the claims visible in the request context - compared with the specification's prediction.
+// The server-level options the gates inherit from the engine are dimensions of the scenarios: the
+// unauthorized callback of the JWT gate (api.WithUnauthorizedCallback: none / writes nothing /
+// sets a header only / writes 401 itself) and, for the signature gate, the key layout of the
+// server (one or two signature-protected route groups, built from the `conf` of the case).
 
 import (
 	"crypto/hmac"
@@ -138,14 +142,68 @@ func tokClass(tok kit.M) string {
 		kit.Str(tok["time"]), kit.Str(tok["claims"]))
 }
 
+// coverage counters of the driver (flushed into the reporter by the entry points)
+var (
+	c04CountMu sync.Mutex
+	c04Counts  = map[string]int{}
+)
+
+func c04Count(name string, n int) {
+	c04CountMu.Lock()
+	c04Counts[name] += n
+	c04CountMu.Unlock()
+}
+
+func c04FlushCounts(rep *kit.Reporter) {
+	c04CountMu.Lock()
+	defer c04CountMu.Unlock()
+	for k, n := range c04Counts {
+		rep.Count(k, n)
+	}
+	c04Counts = map[string]int{}
+}
+
+// c04Callback is the unauthorized callback of kind cb (spec/AuthJwt.tla, variable cb) as a server
+// option (nil for "none"); calls counts its invocations.
+func c04Callback(cb string, calls *atomic.Int64) ([]Option, error) {
+	switch cb {
+	case "none", "":
+		return nil, nil
+	case "silent": // e.g. a callback that only logs or counts
+		return []Option{WithUnauthorizedCallback(func(w http.ResponseWriter, r *http.Request, err error) {
+			calls.Add(1)
+		})}, nil
+	case "header":
+		return []Option{WithUnauthorizedCallback(func(w http.ResponseWriter, r *http.Request, err error) {
+			calls.Add(1)
+			w.Header().Set("WWW-Authenticate", `Bearer realm="c04"`)
+		})}, nil
+	case "writes401":
+		return []Option{WithUnauthorizedCallback(func(w http.ResponseWriter, r *http.Request, err error) {
+			calls.Add(1)
+			w.Header().Set("Content-Type", "application/json")
+			w.WriteHeader(http.StatusUnauthorized)
+			w.Write([]byte(`{"error":"unauthorized"}`))
+		})}, nil
+	}
+	return nil, fmt.Errorf("unknown unauthorized-callback kind %q", cb)
+}
+
+// denyStatus is the status the specification predicts for a request that is not admitted.
+func denyStatus(st kit.M) int {
+	if n := kit.Num(st["deny_status"]); n != 0 {
+		return n
+	}
+	return http.StatusUnauthorized // cases recorded before the field existed
+}
+
 // c04Server builds a server the way the scenario says: "default" (built-in chain), "chain"
 // (api.WithChain with a custom chain of one pass-through middleware), "use" (built-in chain plus
 // a Server.Use middleware), "chain+use".
-func c04Server(kind string) (*Server, error) {
+func c04Server(kind string, opts ...Option) (*Server, error) {
 	pass := func(next http.Handler) http.Handler {
 		return http.HandlerFunc(func(w http.ResponseWriter, r *http.Request) { next.ServeHTTP(w, r) })
 	}
-	var opts []Option
 	switch kind {
 	case "default", "use", "":
 	case "chain", "chain+use":
@@ -169,7 +227,13 @@ func runJwtCase(c kit.Case, clock *kit.Clock) (v kit.Verdict) {
 	v = kit.Verdict{Case: c.Index, OK: true}
 	cfg := kit.Str(c.Steps[0]["cfg"])
 	server := kit.Str(c.Steps[0]["server"])
-	srv, err := c04Server(server)
+	cb := kit.Str(c.Steps[0]["cb"])
+	var cbCalls atomic.Int64
+	cbOpts, err := c04Callback(cb, &cbCalls)
+	if err != nil {
+		return c04Infra(c, err.Error())
+	}
+	srv, err := c04Server(server, cbOpts...)
 	if err != nil {
 		return c04Infra(c, err.Error())
 	}
@@ -225,23 +289,33 @@ func runJwtCase(c kit.Case, clock *kit.Clock) (v kit.Verdict) {
 		v.Steps++
 		expect := kit.Str(st["expect"])
 		admitted := ran == 1 && rec.Code == http.StatusOK
-		denied := ran == 0 && rec.Code == http.StatusUnauthorized
+		denied := ran == 0 && rec.Code == denyStatus(st)
 		fail := func(what, msg string) kit.Verdict {
 			v.OK, v.Step = false, i+1
 			v.Key = "C04:jwt:" + what
+			if cb != "none" && cb != "" {
+				v.Key += ":callback-" + cb
+			}
 			if server != "default" && server != "" {
 				v.Key += ":server-" + server
 			}
-			v.Msg = fmt.Sprintf("server=%s cfg=%s request #%d token %s: %s (handler ran %d times, status %d)", server, cfg, i+1, tokClass(tok), msg, ran, rec.Code)
+			v.Msg = fmt.Sprintf("server=%s cfg=%s unauthorized-callback=%s request #%d token %s: %s (handler ran %d times, status %d, callback called %d times)",
+				server, cfg, cb, i+1, tokClass(tok), msg, ran, rec.Code, cbCalls.Load())
 			return v
 		}
 		switch {
 		case !admitted && !denied:
-			return fail("neither-admit-nor-401", "the gate neither ran the handler with 200 nor answered 401 without running it")
+			return fail("neither-admit-nor-401", fmt.Sprintf("the gate neither ran the handler with 200 nor answered %d without running it", denyStatus(st)))
 		case expect == "deny" && admitted:
 			return fail("admitted-invalid", "specification: 401 and handler not run")
 		case expect == "admit" && denied:
 			return fail("rejected-valid", "specification: handler runs")
+		}
+		if denied {
+			c04Count("jwt.denied.cb-"+cb, 1)
+			if cbCalls.Swap(0) > 0 {
+				c04Count("jwt.denied-callback-called.cb-"+cb, 1)
+			}
 		}
 		if admitted {
 			for _, k := range kit.List(st["visible"]) {
@@ -295,7 +369,13 @@ func TestVerifC04JwtConc(t *testing.T) {
 		t.Fatal("no cases")
 	}
 	cfg := kit.Str(cases[0].Steps[0]["cfg"])
-	srv, err := c04Server(kit.Str(cases[0].Steps[0]["server"]))
+	cb := kit.Str(cases[0].Steps[0]["cb"])
+	var cbCalls atomic.Int64
+	cbOpts, err := c04Callback(cb, &cbCalls)
+	if err != nil {
+		t.Fatal(err)
+	}
+	srv, err := c04Server(kit.Str(cases[0].Steps[0]["server"]), cbOpts...)
 	if err != nil {
 		t.Fatal(err)
 	}
@@ -349,7 +429,7 @@ func TestVerifC04JwtConc(t *testing.T) {
 			for judged.Load() < minReq {
 				for ci := g; ci < len(cases); ci += G {
 					c := cases[ci]
-					if kit.Str(c.Steps[0]["cfg"]) != cfg {
+					if kit.Str(c.Steps[0]["cfg"]) != cfg || kit.Str(c.Steps[0]["cb"]) != cb {
 						fail(ci, 0, "harness", "mixed configurations in the concurrent stage")
 						continue
 					}
@@ -375,8 +455,8 @@ func TestVerifC04JwtConc(t *testing.T) {
 						judged.Add(1)
 						ran := rec.Header().Get("X-Ran") == "1"
 						admitted := ran && rec.Code == http.StatusOK
-						denied := !ran && rec.Code == http.StatusUnauthorized
-						where := fmt.Sprintf("%d goroutines on one route (cfg=%s), token %s uid=%d: handler ran=%v status %d", G, cfg, tokClass(tok), uid, ran, rec.Code)
+						denied := !ran && rec.Code == denyStatus(st)
+						where := fmt.Sprintf("%d goroutines on one route (cfg=%s, unauthorized-callback=%s), token %s uid=%d: handler ran=%v status %d", G, cfg, cb, tokClass(tok), uid, ran, rec.Code)
 						switch expect := kit.Str(st["expect"]); {
 						case !admitted && !denied:
 							fail(ci, i+1, "neither-admit-nor-401", where)
@@ -415,6 +495,7 @@ func TestVerifC04JwtConc(t *testing.T) {
 	}
 	rep.Count("conc.requests", int(judged.Load()))
 	rep.Count("conc.goroutines", G)
+	rep.Count("conc.callback-calls.cb-"+cb, int(cbCalls.Load()))
 }
 
 // ---------------------------------------------------------------- signature
@@ -423,27 +504,37 @@ const c04Tol = 3 // seconds of tolerance configured for the signed routes
 const c04Half = 1 // "half the tolerance" in whole seconds
 
 type c04Keys struct {
-	priv  map[string]*rsa.PrivateKey // fingerprint -> key
+	priv  map[string]*rsa.PrivateKey // RSA key name of the specification ("KA", "KB") -> key
 	files map[string]string
 }
 
-var c04FpA, c04FpB = "c04-fingerprint-A", "c04-fingerprint-B"
+// the fingerprint names of the specification as they go over the wire ("fx": configured nowhere)
+var c04FpWire = map[string]string{"fa": "c04-fingerprint-A", "fb": "c04-fingerprint-B", "fx": "c04-nobody"}
 
 func newC04Keys(dir string) (*c04Keys, error) {
 	k := &c04Keys{priv: map[string]*rsa.PrivateKey{}, files: map[string]string{}}
-	for _, fp := range []string{c04FpA, c04FpB} {
+	for _, name := range []string{"KA", "KB"} {
 		key, err := rsa.GenerateKey(rand.Reader, 2048)
 		if err != nil {
 			return nil, err
 		}
-		file := filepath.Join(dir, fp+".pem")
+		file := filepath.Join(dir, name+".pem")
 		blk := pem.EncodeToMemory(&pem.Block{Type: "RSA PRIVATE KEY", Bytes: x509.MarshalPKCS1PrivateKey(key)})
 		if err := os.WriteFile(file, blk, 0o600); err != nil {
 			return nil, err
 		}
-		k.priv[fp], k.files[fp] = key, file
+		k.priv[name], k.files[name] = key, file
 	}
 	return k, nil
+}
+
+func sortedKeys(m map[string]any) []string {
+	var ks []string
+	for k := range m {
+		ks = append(ks, k)
+	}
+	sort.Strings(ks)
+	return ks
 }
 
 type c04SigServer struct {
@@ -458,29 +549,42 @@ func (s *c04SigServer) close() {
 	}
 }
 
-func newC04SigServer(keys *c04Keys, kind string) (*c04SigServer, error) {
+// newC04SigServer builds one server with the signature-protected route groups of the case's
+// `conf` (route group -> fingerprint name -> RSA key name): one AddRoutes(..., WithSignature(...))
+// per group, each with exactly its own PrivateKeys; group g serves /c04/<g>/a and /c04/<g>/b.
+func newC04SigServer(keys *c04Keys, kind string, conf map[string]any) (*c04SigServer, error) {
 	srv, err := c04Server(kind)
 	if err != nil {
 		return nil, err
 	}
-	s := &c04SigServer{srv: srv}
-	var routes []Route
-	for _, m := range []string{http.MethodGet, http.MethodPost, http.MethodPut, http.MethodDelete} {
-		for _, p := range []string{"/c04/a", "/c04/b"} {
-			routes = append(routes, Route{Method: m, Path: p, Handler: func(w http.ResponseWriter, r *http.Request) {
-				s.ran.Add(1)
-				w.WriteHeader(http.StatusOK)
-			}})
-		}
+	if len(conf) == 0 {
+		return nil, fmt.Errorf("the case names no route group")
 	}
-	srv.AddRoutes(routes, WithSignature(SignatureConfig{
-		Strict: true,
-		Expire: c04Tol * time.Second,
-		PrivateKeys: []PrivateKeyConfig{
-			{Fingerprint: c04FpA, KeyFile: keys.files[c04FpA]},
-			{Fingerprint: c04FpB, KeyFile: keys.files[c04FpB]},
-		},
-	}))
+	s := &c04SigServer{srv: srv}
+	for _, g := range sortedKeys(conf) {
+		var routes []Route
+		for _, m := range []string{http.MethodGet, http.MethodPost, http.MethodPut, http.MethodDelete} {
+			for _, p := range []string{"/c04/" + g + "/a", "/c04/" + g + "/b"} {
+				routes = append(routes, Route{Method: m, Path: p, Handler: func(w http.ResponseWriter, r *http.Request) {
+					s.ran.Add(1)
+					w.WriteHeader(http.StatusOK)
+				}})
+			}
+		}
+		gc, _ := conf[g].(map[string]any)
+		var pks []PrivateKeyConfig
+		for _, fpName := range sortedKeys(gc) {
+			wire, file := c04FpWire[fpName], keys.files[kit.Str(gc[fpName])]
+			if wire == "" || file == "" {
+				return nil, fmt.Errorf("group %s: unknown fingerprint name %q or key %v", g, fpName, gc[fpName])
+			}
+			pks = append(pks, PrivateKeyConfig{Fingerprint: wire, KeyFile: file})
+		}
+		if len(pks) == 0 {
+			return nil, fmt.Errorf("group %s has no key", g)
+		}
+		srv.AddRoutes(routes, WithSignature(SignatureConfig{Strict: true, Expire: c04Tol * time.Second, PrivateKeys: pks}))
+	}
 	if err := srv.ng.bindRoutes(srv.router); err != nil {
 		return nil, err
 	}
@@ -509,13 +613,19 @@ func runSigCase(c kit.Case, keys *c04Keys, servers map[string]*c04SigServer) (v 
 	st := c.Steps[0]
 	rq := st["req"].(map[string]any)
 	server := kit.Str(rq["server"])
-	s := servers[server]
+	layout, group := kit.Str(rq["layout"]), kit.Str(rq["group"])
+	conf, _ := st["conf"].(map[string]any)
+	if _, ok := conf[group]; !ok {
+		return c04Infra(c, fmt.Sprintf("the case's conf %v has no route group %q", st["conf"], group))
+	}
+	skey := server + "/" + kit.Canon(conf) // one server per construction and key configuration
+	s := servers[skey]
 	if s == nil {
 		var err error
-		if s, err = newC04SigServer(keys, server); err != nil {
+		if s, err = newC04SigServer(keys, server, conf); err != nil {
 			return c04Infra(c, err.Error())
 		}
-		servers[server] = s
+		servers[skey] = s
 	}
 	tam := map[string]bool{}
 	var tamList []string
@@ -578,21 +688,22 @@ func runSigCase(c kit.Case, keys *c04Keys, servers map[string]*c04SigServer) (v 
 		default:
 			return c04Infra(c, "unknown ts class "+off)
 		}
-		method, path, query := kit.Str(rq["method"]), "/c04/a", "k=1&z=%20q"
+		method, path, query := kit.Str(rq["method"]), "/c04/"+group+"/a", "k=1&z=%20q"
 		body := ""
 		if kit.Bool(rq["body"]) {
 			body = `{"n":1,"s":"c04"}`
 		}
 		sig := c04Sign(hmacKey, ts, method, path, query, body)
 
-		// what the attacker / broken client changes after signing
-		fp, encFor := c04FpA, c04FpA
+		// the fingerprint the header names and the RSA key the honest secret is encrypted for
+		// (spec/AuthSig.tla, FpName and EncKey)
+		fp, encFor := c04FpWire["fa"], "KA"
 		switch kit.Str(rq["fp"]) {
 		case "known":
 		case "known2":
-			fp, encFor = c04FpB, c04FpB
+			fp, encFor = c04FpWire["fb"], "KB"
 		case "unknown":
-			fp = "c04-nobody"
+			fp = c04FpWire["fx"]
 		case "missing":
 		default:
 			return c04Infra(c, "unknown fp class")
@@ -616,9 +727,9 @@ func runSigCase(c kit.Case, keys *c04Keys, servers map[string]*c04SigServer) (v 
 		case "ok":
 			secret, err = c04Secret(&keys.priv[encFor].PublicKey, hmacKey, tsInSecret)
 		case "crossed":
-			other := c04FpB
-			if encFor == c04FpB {
-				other = c04FpA
+			other := "KB"
+			if encFor == "KB" {
+				other = "KA"
 			}
 			secret, err = c04Secret(&keys.priv[other].PublicKey, hmacKey, tsInSecret)
 		case "garbled":
@@ -633,7 +744,7 @@ func runSigCase(c kit.Case, keys *c04Keys, servers map[string]*c04SigServer) (v 
 			method = map[string]string{"GET": "DELETE", "DELETE": "GET", "POST": "PUT", "PUT": "POST"}[method]
 		}
 		if tam["path"] {
-			path = "/c04/b"
+			path = "/c04/" + group + "/b"
 		}
 		if tam["query"] {
 			query = "k=2&z=%20q"
@@ -711,6 +822,8 @@ func runSigCase(c kit.Case, keys *c04Keys, servers map[string]*c04SigServer) (v 
 		what = "admitted-invalid"
 		if len(tamList) > 0 {
 			what += ":tampered-" + strings.Join(tamList, "+")
+		} else if kit.Bool(st["foreign"]) {
+			what += ":key-of-another-route-group"
 		} else if kit.Str(rq["fp"]) != "known" && kit.Str(rq["fp"]) != "known2" {
 			what += ":fingerprint-" + kit.Str(rq["fp"])
 		} else if kit.Str(rq["secret"]) != "ok" {
@@ -722,13 +835,24 @@ func runSigCase(c kit.Case, keys *c04Keys, servers map[string]*c04SigServer) (v 
 	if what != "" && kit.Str(rq["via"]) != "sized" {
 		what += ":body-" + kit.Str(rq["via"])
 	}
+	if what != "" && layout != "one" {
+		what += ":keys-" + layout
+	}
 	if what != "" && server != "default" {
 		what += ":server-" + server
 	}
 	if what != "" {
 		v.OK = false
 		v.Key = "C04:sig:" + what
-		v.Msg = fmt.Sprintf("strict signature route, request %s: handler ran %d times, status %d; specification: %s", kit.Canon(rq), ran, code, expect)
+		v.Msg = fmt.Sprintf("strict signature route of group %s (route groups and their keys: %s), request %s: handler ran %d times, status %d; specification: %s",
+			group, kit.Canon(conf), kit.Canon(rq), ran, code, expect)
+	} else {
+		if passed {
+			c04Count("sig.pass."+layout+"."+group, 1)
+		}
+		if kit.Bool(st["foreign"]) && kit.Str(rq["ts"]) == "now" && len(tamList) == 0 {
+			c04Count("sig.foreign-key-denied."+layout+"."+group, 1)
+		}
 	}
 	return v
 }
@@ -746,6 +870,7 @@ func TestVerifC04Api(t *testing.T) {
 		t.Fatal(err)
 	}
 	defer rep.Close()
+	defer c04FlushCounts(rep)
 	clock := kit.NewClock()
 	timex.SetVerifClock(clock.Now)
 	defer timex.SetVerifClock(nil)
